@@ -113,3 +113,43 @@ func BuildBytes(raw []byte, seeded bool) []byte {
 	p.Op(raw...)
 	return p.Bytes()
 }
+
+// BuildSeqIns is BuildSeq with a code prefix (run before the sentinel seed) and a code fragment inserted before
+// the macro at position at (at == len(seq): after the last macro). Returns the code and the pc of the fragment.
+func BuildSeqIns(f world.Fork, alpha []Macro, seq []int, maxLen int, prefix []byte, at int, ins []byte) ([]byte, int) {
+	p := asm.New()
+	p.Op(prefix...)
+	for i := 0; i < 3*maxLen; i++ {
+		p.Push(uint64(0xf1 + i))
+	}
+	p.Push(64).Push(32).Push(0)
+	var patches []int
+	insPC := -1
+	for i := 0; i <= len(seq); i++ {
+		if i == at {
+			insPC = p.Len()
+			p.Op(ins...)
+		}
+		if i == len(seq) {
+			break
+		}
+		m := seq[i]
+		code := alpha[m].Code(f)
+		if alpha[m].Jump {
+			patches = append(patches, p.Len()+1)
+		}
+		p.Op(code...)
+	}
+	dest := p.Len()
+	for _, at := range patches {
+		p.B[at] = byte(dest >> 8)
+		p.B[at+1] = byte(dest)
+	}
+	p.Op(asm.JUMPDEST, asm.MSIZE).Push(0x160).Op(asm.MSTORE)
+	p.Push(0x100).Op(asm.MSTORE).Push(0x120).Op(asm.MSTORE).Push(0x140).Op(asm.MSTORE)
+	if f >= world.Byzantium {
+		p.Op(asm.RETURNDATASIZE).Push(0x180).Op(asm.MSTORE)
+	}
+	p.Push(0x1a0).Push(0).Op(asm.RETURN)
+	return p.Bytes(), insPC
+}
